@@ -322,52 +322,14 @@ def rule_fsm_payee(ctx: RuleContext, p: Program, rid: str) -> None:
 
 # ------------------------------------------------------------------ SLOT-AGREE
 def rule_slot_agree(ctx: RuleContext, p: Program, rid: str) -> None:
-    ctx.rule(rid, 'value-level property classes: getter and setter use the same inner property; existing child updated through '
-                  '.value; new child = inner_type.from_value(value); None clears; generated value properties wrap the raw property of '
-                  'the same field with the field\'s own type')
+    ctx.rule(rid, 'value-level property classes (optional string / indented string / decimal / date, required value), their _get and '
+                  '__set__ interpreted over every combination of (child present / absent) x (value None / a value / a falsy value) against '
+                  'mock inner property, inner type and indent property: after __set__(v) the getter returns v, an absent child is created '
+                  'with inner_type.from_value(v) (with the owner\'s indent where the class has one), None clears the slot, an existing '
+                  'child is updated through .value or replaced by a fresh one, and nothing else is written; generated value properties '
+                  'wrap the raw property of the same field with the field\'s own type')
     vp = p.module('models.internal.value_properties')
-    n = 0
-    for cname in ('optional_string_property', 'optional_decimal_property', 'optional_date_property', 'optional_indented_string_property'):
-        c = p.cls(cname, 'models.internal.value_properties')
-        g = p.method(c, '_get', inherited=False)
-        s = p.method(c, '__set__', inherited=False)
-        inst, val = s.params[1], s.params[2]
-        problems = []
-        gets = [x for f in (g, s) for x in walk_no_nested(f.node) if isinstance(x, ast.Call) and norm(x.func) == 'self._inner_property.__get__']
-        if len(gets) != 2:
-            problems.append('getter and setter do not both read self._inner_property')
-        upd = [a for a in walk_no_nested(s.node) if isinstance(a, ast.Assign) and isinstance(a.targets[0], ast.Attribute)]
-        if [norm(a.targets[0]) for a in upd] != ['current.value'] or norm(upd[0].value) != val:
-            problems.append(f'update path assigns {[norm(a) for a in upd]}, expected current.value = {val}')
-        guard = [i for i in walk_no_nested(s.node) if isinstance(i, ast.If)]
-        if not guard or norm(guard[0].test) != f'current is not None and {val} is not None':
-            problems.append('update is not guarded by `current is not None and value is not None`')
-        sets = [x for x in walk_no_nested(s.node) if isinstance(x, ast.Call) and norm(x.func) == 'self._inner_property.__set__']
-        if len(sets) != 1 or norm(sets[0].args[0]) != inst:
-            problems.append('create/clear path does not store through self._inner_property.__set__(instance, ...)')
-        cre_e = [a.value for a in walk_no_nested(s.node) if isinstance(a, ast.Assign) and isinstance(a.value, ast.IfExp)
-                 and sets and norm(sets[0].args[1]) == norm(a.targets[0])]
-        if sets and isinstance(sets[0].args[1], ast.IfExp):
-            cre_e = [sets[0].args[1]]            # canonical form: written inline
-        ok = len(cre_e) == 1 and norm(cre_e[0].test) == f'{val} is not None' and norm(cre_e[0].orelse) == 'None' \
-            and norm(cre_e[0].body).startswith(f'self._inner_type.from_value({val}')
-        if not ok:
-            problems.append('new child is not inner_type.from_value(value) if value is not None else None')
-        rg = [norm(r.value) for r in walk_no_nested(g.node) if isinstance(r, ast.Return)]
-        if rg != ['s.value if s is not None else None']:
-            problems.append(f'getter returns {rg}')
-        n += 1
-        ctx.check(not problems, rid, f'models.internal.value_properties:{cname}', '; '.join(problems) or 'ok', '; '.join(problems), c.where,
-                  note='get/set through one inner property; update .value; create from_value; clear None')
-    c = p.cls('required_value_property', 'models.internal.value_properties')
-    g = single_ret(p.method(c, '_get', inherited=False))
-    s = p.method(c, '__set__', inherited=False)
-    asg = [a for a in walk_no_nested(s.node) if isinstance(a, ast.Assign)]
-    ok = g == f'self._inner_property.__get__({p.method(c, "_get", inherited=False).params[1]}).value' and len(asg) == 1 \
-        and norm(asg[0].targets[0]) == f'self._inner_property.__get__({s.params[1]}).value' and norm(asg[0].value) == s.params[2]
-    n += 1
-    ctx.check(ok, rid, 'models.internal.value_properties:required_value_property', 'value of the inner node', 'required_value_property does not '
-              'read and write .value of the same inner node', c.where)
+    n = _slot_sem(ctx, p, rid)
     # generated classes: X = <value property>(raw_X, Type) -- the raw property of the same name, type = the field's type
     m = 0
     for cl in p.classes:
@@ -392,6 +354,105 @@ def rule_slot_agree(ctx: RuleContext, p: Program, rid: str) -> None:
                       note=norm(d.call)[:90], nontrivial=False)
     if n < 5 or m < 100:
         raise AnalysisError(f'SLOT-AGREE: {n} property classes / {m} generated value properties (5 / >= 100 expected)')
+
+
+def _slot_sem(ctx: RuleContext, p: Program, rid: str) -> int:
+    from . import possem
+    from .tokenstore import TS
+    ts = TS(p)
+    m = p.module('models.internal.value_properties')
+    classes = [c for c in m.classes if isinstance(c.attrs.get('_get'), FuncInfo) and isinstance(c.attrs.get('__set__'), FuncInfo)
+               and c.name.endswith('_property') and not c.name.startswith('repeated')
+               and any(isinstance(x, ast.Attribute) and x.attr == '_inner_property' for x in ast.walk(c.attrs['__set__'].node))]
+    if len(classes) < 5:
+        raise AnalysisError(f'SLOT-AGREE: only {len(classes)} value property classes found (5 confirmed)')
+
+    class Interp(possem.PosInterp):
+        tag = 'SLOT-AGREE'
+
+        def __init__(self) -> None:
+            super().__init__(ts, [], module=m)
+            self.events: list = []
+
+        def expr(self, e: Any, env: dict) -> Any:                 # type: ignore[override]
+            if isinstance(e, ast.Call) and isinstance(e.func, ast.Attribute):
+                f = e.func
+                if f.attr in ('__get__', '__set__', 'from_value'):
+                    base_v = self.expr(f.value, env)
+                    if isinstance(base_v, possem.Obj) and base_v.cls in ('InnerProp', 'IndentProp', 'InnerType'):
+                        args = [self.expr(a, env) for a in e.args]
+                        kw = {k.arg: self.expr(k.value, env) for k in e.keywords}
+                        if base_v.cls == 'InnerProp' and f.attr == '__get__':
+                            self.events.append(('get', args[0]))
+                            return base_v.f['slot']
+                        if base_v.cls == 'InnerProp' and f.attr == '__set__':
+                            self.events.append(('set', args[0], args[1]))
+                            base_v.f['slot'] = args[1]
+                            return None
+                        if base_v.cls == 'IndentProp' and f.attr == '__get__':
+                            return possem.Obj('IndentTok', {'value': 'INDENT'}, 'indent')
+                        if base_v.cls == 'InnerType' and f.attr == 'from_value':
+                            if args[0] is None:
+                                raise possem.Raised('from_value(None)')
+                            return possem.Obj('Child', {'value': args[0], 'indent': kw.get('indent'), 'fresh': True}, 'fresh child')
+                        raise self.err(e, 'call on a mock')
+            return super().expr(e, env)
+
+    n = 0
+    for c in classes:
+        g, st = c.attrs['_get'], c.attrs['__set__']
+        init = c.attrs.get('__init__')
+        params = init.params[1:] if isinstance(init, FuncInfo) else []
+        optional = 'Optional' in norm(st.node.args.args[2].annotation or ast.Constant(value=''))
+        indented = any('indent' in q for q in params)
+        values = ['V', ''] if 'str' in c.name or 'string' in c.name else [5, 0]
+        problem = ''
+        cases = 0
+        for has_child in ((False, True) if optional else (True,)):
+            for val in ([None] if optional else []) + values:
+                it = Interp()
+                child = possem.Obj('Child', {'value': 'OLD', 'indent': 'OLDINDENT', 'fresh': False}, 'old child') if has_child else None
+                inner = possem.Obj('InnerProp', {'slot': child}, 'inner')
+                me = possem.Obj(c.name, {}, 'prop')
+                for q in params:
+                    me.f['_' + q] = inner if q == 'inner_property' else possem.Obj('InnerType', {}, 'type') if q == 'inner_type' \
+                        else possem.Obj('IndentProp', {}, 'indentprop') if 'indent' in q else None
+                owner = possem.Obj('Owner', {}, 'instance')
+                where_ = f'child {"present" if has_child else "absent"}, value {val!r}'
+                cases += 1
+                try:
+                    it.call_function(st, [me, owner, val], {})
+                    it2 = Interp()
+                    got = it2.call_function(g, [me, owner], {})
+                except possem.Raised as ex:
+                    problem = problem or f'{where_}: raises {ex}'
+                    continue
+                slot = inner.f['slot']
+                if got != val:
+                    problem = problem or f'{where_}: after __set__ the getter returns {got!r}'
+                    continue
+                if any(ev[0] in ('get', 'set') and ev[1] is not owner for ev in it.events):
+                    problem = problem or f'{where_}: the inner property is read / written on something else than the instance'
+                if val is None:
+                    if slot is not None:
+                        problem = problem or f'{where_}: the slot is not cleared'
+                elif not has_child:
+                    if not (isinstance(slot, possem.Obj) and slot.f.get('fresh') and slot.f.get('value') == val):
+                        problem = problem or f'{where_}: the slot does not hold a child made by inner_type.from_value(value)'
+                    elif indented and slot.f.get('indent') != 'INDENT':
+                        problem = problem or f'{where_}: the new child is not given the owner\'s indent'
+                else:
+                    if slot is child:
+                        if child.f['value'] != val:
+                            problem = problem or f'{where_}: the existing child keeps its old value'
+                    elif not (isinstance(slot, possem.Obj) and slot.f.get('fresh') and slot.f.get('value') == val):
+                        problem = problem or f'{where_}: the slot holds neither the updated child nor a fresh one'
+                if has_child and slot is not child and child.f['value'] != 'OLD':
+                    problem = problem or f'{where_}: the replaced child was modified as well'
+        n += 1
+        ctx.check(not problem, rid, f'models.internal.value_properties:{c.name}', 'set then get', f'{c.name}: {problem}: a value written through '
+                  f'the property is not the value read back (or lands in the wrong node)', c.where, note=f'{cases} (child, value) cases')
+    return n
 
 
 def single_ret(f: FuncInfo) -> Optional[str]:
